@@ -517,11 +517,11 @@ func (d *Datastore) runDeviationUpdate(ctx context.Context, dm map[string]sdcpb.
 			continue
 		}
 
+		// all the intents (of all priorities) that define the path
 		intentsUpdates := d.cacheClient.Read(ctx, d.Name(), &cache.Opts{
-			Store:         cachepb.Store_INTENDED,
-			Owner:         "",
-			Priority:      0,
-			PriorityCount: 0,
+			Store:    cachepb.Store_INTENDED,
+			Owner:    "",
+			Priority: -1,
 		}, [][]string{upd.GetPath()}, 0)
 		if len(intentsUpdates) == 0 {
 			log.Debugf("%s: has unhandled config %v: %v", d.Name(), upd.GetPath(), v)
@@ -549,110 +549,7 @@ func (d *Datastore) runDeviationUpdate(ctx context.Context, dm map[string]sdcpb.
 			continue
 		}
 		// NOT_APPLIED or OVERRULED deviation
-		// sort intent updates by priority/TS
-		sort.Slice(intentsUpdates, func(i, j int) bool {
-			if intentsUpdates[i].Priority() == intentsUpdates[j].Priority() {
-				return intentsUpdates[i].TS() < intentsUpdates[j].TS()
-			}
-			return intentsUpdates[i].Priority() < intentsUpdates[j].Priority()
-		})
-		// first intent
-		// // compare values with config
-		fiv, err := intentsUpdates[0].Value()
-		if err != nil {
-			log.Errorf("%s: failed to convert intent value: %v", d.Name(), err)
-			continue
-		}
-		sp, err := d.schemaClient.ToPath(ctx, intentsUpdates[0].GetPath())
-		if err != nil {
-			log.Errorf("%s: failed to convert path %v: %v", d.Name(), intentsUpdates[0].GetPath(), err)
-			continue
-		}
-		scRsp, err := d.schemaClient.GetSchemaSdcpbPath(ctx, sp)
-		if err != nil {
-			log.Errorf("%s: failed to get path schema: %v ", d.Name(), err)
-			continue
-		}
-		nfiv, err := utils.TypedValueToYANGType(fiv, scRsp.GetSchema())
-		if err != nil {
-			log.Errorf("%s: failed to convert value to its YANG type: %v ", d.Name(), err)
-			continue
-		}
-		if !utils.EqualTypedValues(nfiv, v) {
-			log.Debugf("%s: intent %s has a NOT_APPLIED deviation: configured: %v -> expected %v",
-				d.Name(), intentsUpdates[0].Owner(), v, nfiv)
-			rsp := &sdcpb.WatchDeviationResponse{
-				Name:          d.Name(),
-				Intent:        intentsUpdates[0].Owner(),
-				Event:         sdcpb.DeviationEvent_UPDATE,
-				Reason:        sdcpb.DeviationReason_NOT_APPLIED,
-				Path:          sp,
-				ExpectedValue: nfiv,
-				CurrentValue:  v,
-			}
-			for _, dc := range dm {
-				err = dc.Send(rsp)
-				if err != nil {
-					log.Errorf("%s: failed to send deviation: %v", d.Name(), err)
-					continue
-				}
-			}
-			xp := utils.ToXPath(sp, false)
-			if _, ok := newDeviations[xp]; !ok {
-				newDeviations[xp] = make([]*sdcpb.WatchDeviationResponse, 0, 1)
-			}
-			newDeviations[xp] = append(newDeviations[xp], rsp)
-		}
-		// remaining intents
-		for _, intUpd := range intentsUpdates[1:] {
-			iv, err := intUpd.Value()
-			if err != nil {
-				log.Errorf("%s: failed to convert intent value: %v", d.Name(), err)
-				continue
-			}
-			sp, err := d.schemaClient.ToPath(ctx, intUpd.GetPath())
-			if err != nil {
-				log.Errorf("%s: failed to convert path %v: %v", d.Name(), intUpd.GetPath(), err)
-				continue
-			}
-			scRsp, err := d.schemaClient.GetSchemaSdcpbPath(ctx, sp)
-			if err != nil {
-				log.Errorf("%s: failed to get path schema: %v ", d.Name(), err)
-				continue
-			}
-			niv, err := utils.TypedValueToYANGType(iv, scRsp.GetSchema())
-			if err != nil {
-				log.Errorf("%s: failed to convert value to its YANG type: %v ", d.Name(), err)
-				continue
-			}
-			if !utils.EqualTypedValues(nfiv, niv) {
-				log.Debugf("%s: intent %s has an OVERRULED deviation: ruling intent has: %v -> overruled intent has: %v",
-					d.Name(), intUpd.Owner(), nfiv, niv)
-				// TODO: generate an OVERRULED deviation
-
-				rsp := &sdcpb.WatchDeviationResponse{
-					Name:          d.Name(),
-					Intent:        intUpd.Owner(),
-					Event:         sdcpb.DeviationEvent_UPDATE,
-					Reason:        sdcpb.DeviationReason_OVERRULED,
-					Path:          sp,
-					ExpectedValue: iv,
-					CurrentValue:  fiv,
-				}
-				for _, dc := range dm {
-					err = dc.Send(rsp)
-					if err != nil {
-						log.Errorf("%s: failed to send deviation: %v", d.Name(), err)
-						continue
-					}
-				}
-				xp := utils.ToXPath(sp, false)
-				if _, ok := newDeviations[xp]; !ok {
-					newDeviations[xp] = make([]*sdcpb.WatchDeviationResponse, 0, 1)
-				}
-				newDeviations[xp] = append(newDeviations[xp], rsp)
-			}
-		}
+		d.sendIntentDeviations(ctx, dm, intentsUpdates, v, newDeviations)
 	}
 
 	intendedUpdates, err := d.readStoreKeysMeta(ctx, cachepb.Store_INTENDED)
@@ -661,51 +558,23 @@ func (d *Datastore) runDeviationUpdate(ctx context.Context, dm map[string]sdcpb.
 		return
 	}
 
+	// the paths that are defined by intents but do not exist in the config (running) at all
 	for _, upds := range intendedUpdates {
-		for _, upd := range upds {
-			path := strings.Join(upd.GetPath(), sep)
-			if _, exists := configPaths[path]; !exists {
-
-				// iv, err := upd.Value()
-				// if err != nil {
-				// 	log.Errorf("%s: failed to convert intent value: %v", d.Name(), err)
-				// 	continue
-				// }
-
-				path, err := d.schemaClient.ToPath(ctx, upd.GetPath())
-				if err != nil {
-					log.Error(err)
-					continue
-				}
-				// scRsp, err := d.getSchema(ctx, path)
-				// if err != nil {
-				// 	log.Errorf("%s: failed to get path schema: %v ", d.Name(), err)
-				// 	continue
-				// }
-				// niv, err := d.typedValueToYANGType(iv, scRsp.GetSchema())
-				// if err != nil {
-				// 	log.Errorf("%s: failed to convert value to its YANG type: %v ", d.Name(), err)
-				// 	continue
-				// }
-
-				rsp := &sdcpb.WatchDeviationResponse{
-					Name:          d.Name(),
-					Intent:        upd.Owner(),
-					Event:         sdcpb.DeviationEvent_UPDATE,
-					Reason:        sdcpb.DeviationReason_NOT_APPLIED,
-					Path:          path,
-					ExpectedValue: nil, // TODO this need to be fixed
-					CurrentValue:  nil,
-				}
-				for _, dc := range dm {
-					err = dc.Send(rsp)
-					if err != nil {
-						log.Errorf("%s: failed to send deviation: %v", d.Name(), err)
-						continue
-					}
-				}
-			}
+		if len(upds) == 0 {
+			continue
 		}
+		if _, exists := configPaths[strings.Join(upds[0].GetPath(), sep)]; exists {
+			continue
+		}
+		intentsUpdates := d.cacheClient.Read(ctx, d.Name(), &cache.Opts{
+			Store:    cachepb.Store_INTENDED,
+			Owner:    "",
+			Priority: -1,
+		}, [][]string{upds[0].GetPath()}, 0)
+		if len(intentsUpdates) == 0 {
+			continue
+		}
+		d.sendIntentDeviations(ctx, dm, intentsUpdates, nil, newDeviations)
 	}
 
 	// send deviation event END
@@ -722,6 +591,92 @@ func (d *Datastore) runDeviationUpdate(ctx context.Context, dm map[string]sdcpb.
 	d.md.Lock()
 	d.currentIntentsDeviations = newDeviations
 	d.md.Unlock()
+}
+
+// sendIntentDeviations compares the values the intents define for a single path with each other and with the
+// running value of the path (nil if the path does not exist in running). It sends a NOT_APPLIED deviation for the
+// ruling (highest precedence) intent if the running value differs from its value or is missing and an OVERRULED
+// deviation for every other intent that defines a different value then the ruling one.
+func (d *Datastore) sendIntentDeviations(ctx context.Context, dm map[string]sdcpb.DataServer_WatchDeviationsServer, intentsUpdates []*cache.Update, running *sdcpb.TypedValue, newDeviations map[string][]*sdcpb.WatchDeviationResponse) {
+	// sort intent updates by priority/TS
+	sort.Slice(intentsUpdates, func(i, j int) bool {
+		if intentsUpdates[i].Priority() == intentsUpdates[j].Priority() {
+			return intentsUpdates[i].TS() < intentsUpdates[j].TS()
+		}
+		return intentsUpdates[i].Priority() < intentsUpdates[j].Priority()
+	})
+	send := func(sp *sdcpb.Path, rsp *sdcpb.WatchDeviationResponse) {
+		for _, dc := range dm {
+			err := dc.Send(rsp)
+			if err != nil {
+				log.Errorf("%s: failed to send deviation: %v", d.Name(), err)
+				continue
+			}
+		}
+		xp := utils.ToXPath(sp, false)
+		newDeviations[xp] = append(newDeviations[xp], rsp)
+	}
+	// normalized value of an intent update
+	yangValue := func(u *cache.Update) (*sdcpb.Path, *sdcpb.TypedValue, error) {
+		iv, err := u.Value()
+		if err != nil {
+			return nil, nil, fmt.Errorf("failed to convert intent value: %v", err)
+		}
+		sp, err := d.schemaClient.ToPath(ctx, u.GetPath())
+		if err != nil {
+			return nil, nil, fmt.Errorf("failed to convert path %v: %v", u.GetPath(), err)
+		}
+		scRsp, err := d.schemaClient.GetSchemaSdcpbPath(ctx, sp)
+		if err != nil {
+			return nil, nil, fmt.Errorf("failed to get path schema: %v", err)
+		}
+		niv, err := utils.TypedValueToYANGType(iv, scRsp.GetSchema())
+		if err != nil {
+			return nil, nil, fmt.Errorf("failed to convert value to its YANG type: %v", err)
+		}
+		return sp, niv, nil
+	}
+
+	// first intent, the ruling one: compare its value with running
+	sp, nfiv, err := yangValue(intentsUpdates[0])
+	if err != nil {
+		log.Errorf("%s: %v", d.Name(), err)
+		return
+	}
+	if running == nil || !utils.EqualTypedValues(nfiv, running) {
+		log.Debugf("%s: intent %s has a NOT_APPLIED deviation: configured: %v -> expected %v",
+			d.Name(), intentsUpdates[0].Owner(), running, nfiv)
+		send(sp, &sdcpb.WatchDeviationResponse{
+			Name:          d.Name(),
+			Intent:        intentsUpdates[0].Owner(),
+			Event:         sdcpb.DeviationEvent_UPDATE,
+			Reason:        sdcpb.DeviationReason_NOT_APPLIED,
+			Path:          sp,
+			ExpectedValue: nfiv,
+			CurrentValue:  running,
+		})
+	}
+	// remaining intents: compare their value with the ruling one
+	for _, intUpd := range intentsUpdates[1:] {
+		sp, niv, err := yangValue(intUpd)
+		if err != nil {
+			log.Errorf("%s: %v", d.Name(), err)
+			continue
+		}
+		if !utils.EqualTypedValues(nfiv, niv) {
+			log.Debugf("%s: intent %s has an OVERRULED deviation: ruling intent has: %v -> overruled intent has: %v",
+				d.Name(), intUpd.Owner(), nfiv, niv)
+			send(sp, &sdcpb.WatchDeviationResponse{
+				Name:          d.Name(),
+				Intent:        intUpd.Owner(),
+				Event:         sdcpb.DeviationEvent_UPDATE,
+				Reason:        sdcpb.DeviationReason_OVERRULED,
+				Path:          sp,
+				ExpectedValue: niv,
+				CurrentValue:  nfiv,
+			})
+		}
+	}
 }
 
 // DatastoreRollbackAdapter implements the types.RollbackInterface and encapsulates the Datastore.
